@@ -15,6 +15,7 @@ import (
 	"github.com/hprose/hprose-golang/v3/rpc/udp"
 	"github.com/hprose/hprose-golang/v3/rpc/websocket"
 	"github.com/valyala/fasthttp"
+	"verifsim"
 )
 
 // Fixture wires a real core.Service and real core.Clients together through the
@@ -117,6 +118,12 @@ func NewFixture(r *Run, kind string, service *core.Service) *Fixture {
 		f.listener = n.Listen(f.Addr)
 		srv := &http.Server{}
 		service.GetHandler(name).BindContext(f.ctx, srv)
+		inner := srv.Handler
+		srv.Handler = http.HandlerFunc(func(w http.ResponseWriter, req *http.Request) {
+			// the per-connection goroutine of net/http gets a name derived from the connection
+			verifsim.NameCurrent("httpconn-" + req.RemoteAddr)
+			inner.ServeHTTP(w, req)
+		})
 		r.Sim.Task("srv", func() { srv.Serve(f.listener) })
 		f.stops = append(f.stops, func() { srv.Close() })
 	case "websocket-fast", "fasthttp":
@@ -131,6 +138,11 @@ func NewFixture(r *Run, kind string, service *core.Service) *Fixture {
 		f.listener = n.Listen(f.Addr)
 		srv := &fasthttp.Server{}
 		service.GetHandler(name).BindContext(f.ctx, srv)
+		innerFast := srv.Handler
+		srv.Handler = func(ctx *fasthttp.RequestCtx) {
+			verifsim.NameCurrent("fastconn-" + ctx.RemoteAddr().String())
+			innerFast(ctx)
+		}
 		r.Sim.Task("srv", func() { srv.Serve(f.listener) })
 	case "udp":
 		f.Addr = "10.0.0.1:8412"
